@@ -203,8 +203,8 @@ func c18Select(allow, deny, in []string, whole bool) map[string]bool {
 
 type c18Opts struct {
 	DigestTags, Referrers, FastCheck, Force bool
-	MediaTypes                             []string
-	Backup                                 []c18Part
+	MediaTypes                              []string
+	Backup                                  []c18Part
 }
 
 func c18Sel(e, d *bool) bool {
@@ -296,16 +296,16 @@ func c18Contains(l []string, s string) bool {
 // mirror, plus the set of target keys / repositories whose selection differs
 // under textual anchoring.
 type c18Plan struct {
-	Exps      map[c18K]*c18Exp
-	ExemptKeys map[c18K]bool     // backup names of referrers fallback tags (not judged)
-	DivKeys   map[c18K]bool      // not selected under the documented semantics but selected under textual anchoring
-	DivRepos  map[[2]string]bool // (host, target repo) of a source repository selected only under textual anchoring
-	Targeted  map[[2]string]bool // (host, repo) that some entry may legitimately write into
-	DTRepos   map[[2]string]bool // targeted with digestTags on
-	EntryRepo map[int][][2]string
-	Excluded  int  // source tags excluded by a tag or repository filter
-	Conflict  bool // two entries expect different things of the same target tag (not generated)
-	Labels    map[string]int
+	Exps       map[c18K]*c18Exp
+	ExemptKeys map[c18K]bool      // backup names of referrers fallback tags (not judged)
+	DivKeys    map[c18K]bool      // not selected under the documented semantics but selected under textual anchoring
+	DivRepos   map[[2]string]bool // (host, target repo) of a source repository selected only under textual anchoring
+	Targeted   map[[2]string]bool // (host, repo) that some entry may legitimately write into
+	DTRepos    map[[2]string]bool // targeted with digestTags on
+	EntryRepo  map[int][][2]string
+	Excluded   int  // source tags excluded by a tag or repository filter
+	Conflict   bool // two entries expect different things of the same target tag (not generated)
+	Labels     map[string]int
 }
 
 func c18Expect(c c18Case, srcPre c18HostSnap, names c18Names) *c18Plan {
@@ -535,6 +535,12 @@ const c18SigStale = "platform-target-holding-source-index-counts-as-match"
 
 func (x *c18StepCtx) v(div bool, sig, format string, a ...any) *evid.Violation {
 	msg := fmt.Sprintf("step %d (%s): ", x.Step, x.C.Steps[x.Step].Cmd) + fmt.Sprintf(format, a...)
+	// only outcomes that textual anchoring explains are attributed to it: a tag that was (not) mirrored
+	switch sig {
+	case "selected-tag-missing-at-target", "selected-tag-not-updated", "unselected-tag-changed", "untouched-repository-changed":
+	default:
+		div = false
+	}
 	if div {
 		return evid.V(c18SigAlt, "[selection of this tag/repository differs between whole-string matching and \"^\"+filter+\"$\": a top-level alternation is only anchored at its outer ends] %s: %s", sig, msg)
 	}
@@ -704,86 +710,83 @@ func (x *c18StepCtx) judgeOnce() []*evid.Violation {
 			}
 		}
 	}
-	// --- backups: previous image complete under the backup name, written before the overwrite
+	// --- backups: before a tag is overwritten, its previous image is available (complete) under the backup name.
+	// Judged at the instant of the overwrite through the request log: several tags may share one backup name
+	// (a constant template), later backups then legitimately replace earlier ones.
 	bkeys := make([]c18K, 0, len(backups))
 	for k := range backups {
 		bkeys = append(bkeys, k)
 	}
 	sort.Slice(bkeys, func(i, j int) bool { return bkeys[i].String() < bkeys[j].String() })
 	for _, bk := range bkeys {
-		group := backups[bk]
-		x.Stats.Backups += len(group)
 		posB := x.post(bk.Host)[bk.Repo]
-		B, hasB := posB.tag(bk.Tag)
-		prev := map[string]*c18Exp{}
-		div := false
-		for _, e := range group {
-			P, _ := x.pre(e.K.Host)[e.K.Repo].tag(e.K.Tag)
-			prev[P] = e
-			div = div || e.Divergent
-		}
-		stale := func(e *c18Exp) bool {
-			P, _ := x.pre(e.K.Host)[e.K.Repo].tag(e.K.Tag)
-			return e.Platform && P == e.SrcDigest
-		}
-		if !hasB || prev[B] == nil {
-			e := group[0]
-			P, _ := x.pre(e.K.Host)[e.K.Repo].tag(e.K.Tag)
+		for _, e := range backups[bk] {
+			x.Stats.Backups++
+			preR := x.pre(e.K.Host)[e.K.Repo]
+			P, _ := preR.tag(e.K.Tag)
 			Q, _ := x.post(e.K.Host)[e.K.Repo].tag(e.K.Tag)
-			sig := "overwritten-without-backup"
-			if stale(e) {
-				sig = c18SigStale
-			}
-			vs = append(vs, x.v(div, sig, "entry %d: target %s was overwritten (%s -> %s) with backup template %q configured, but backup name %s resolves to %q after the run (expected the previous image)",
-				e.Entry, e.K, P, Q, c18TemplateText(e.Opt.Backup, 0), bk, B))
-			continue
-		}
-		// completeness of the backed-up image (plain closure taken from the pre-run target repository)
-		owner := prev[B]
-		preR := x.pre(owner.K.Host)[owner.K.Repo]
-		mt := ""
-		if mf := preR.Man[B]; mf != nil {
-			mt = mf.MediaType
-		}
-		res := audit.ClosureEx(preR.view(), B, mt, audit.Opts{})
-		if len(res.Problems) == 0 {
-			for _, d := range c18SortedKeys(res.Content) {
-				if x.ArtChild[d] && d != B {
-					continue
-				}
-				if !posB.has(d) {
-					vs = append(vs, x.v(div, "backup-incomplete", "backup %s resolves to the previous image %s but %s of its closure is absent in the backup repository", bk, B, d))
+			stale := e.Platform && P == e.SrcDigest
+			over := -1
+			for _, le := range x.Log {
+				if le.Class == "manifest-put" && le.Status == 201 && le.Host == x.addr(e.K.Host) && le.Repo == e.K.Repo && le.Ref == e.K.Tag {
+					over = le.Seq
 					break
 				}
 			}
-		} else {
-			x.Labels["backup:previous-image-incomplete(not judged)"]++
-		}
-		// ordering in the request log
-		for _, e := range group {
-			P, _ := x.pre(e.K.Host)[e.K.Repo].tag(e.K.Tag)
-			if preB, ok := x.pre(bk.Host)[bk.Repo].tag(bk.Tag); ok && preB == P {
-				x.Labels["backup:name-already-held-previous-image"]++
+			if over < 0 {
+				x.Labels["backup:overwriting-request-not-found(not judged)"]++
 				continue
 			}
-			over, back := -1, -1
+			held, heldBy := "", -1 // what the backup name resolved to when the overwrite arrived
+			if d, ok := x.pre(bk.Host)[bk.Repo].tag(bk.Tag); ok {
+				held = d
+			}
+			later := -1
 			for _, le := range x.Log {
-				if le.Class != "manifest-put" || le.Status != 201 {
+				if le.Class != "manifest-put" || le.Status != 201 || le.Host != x.addr(bk.Host) || le.Repo != bk.Repo || le.Ref != bk.Tag {
 					continue
 				}
-				if over < 0 && le.Host == x.addr(e.K.Host) && le.Repo == e.K.Repo && le.Ref == e.K.Tag {
-					over = le.Seq
-				}
-				if back < 0 && le.Host == x.addr(bk.Host) && le.Repo == bk.Repo && le.Ref == bk.Tag && le.Note == "stored "+P {
-					back = le.Seq
+				if le.Seq < over {
+					held, heldBy = strings.TrimPrefix(le.Note, "stored "), le.Seq
+				} else if later < 0 && le.Note == "stored "+P {
+					later = le.Seq
 				}
 			}
-			if over >= 0 && (back < 0 || back > over) {
-				sig := "backup-not-before-overwrite"
-				if stale(e) {
+			if held != P {
+				sig := "overwritten-without-backup"
+				switch {
+				case stale:
 					sig = c18SigStale
+				case later >= 0:
+					sig = "backup-not-before-overwrite"
+				case heldBy >= 0:
+					sig = "backup-holds-wrong-image"
 				}
-				vs = append(vs, x.v(e.Divergent, sig, "entry %d: target %s was overwritten by request #%d, the backup of its previous image %s under %s was written by request #%d (-1 = never)", e.Entry, e.K, over, P, bk, back))
+				vs = append(vs, x.v(e.Divergent, sig, "entry %d: target %s was overwritten (%s -> %s) by request #%d with backup template %q configured; at that instant backup name %s resolved to %q (written by request #%d, -1 = state before the run); a backup of the previous image was written by request #%d (-1 = never)",
+					e.Entry, e.K, P, Q, over, c18TemplateText(e.Opt.Backup, 0), bk, held, heldBy, later))
+				continue
+			}
+			if heldBy < 0 {
+				x.Labels["backup:name-already-held-previous-image"]++
+			}
+			// completeness of the backed-up image (plain closure taken from the pre-run target repository)
+			mt := ""
+			if mf := preR.Man[P]; mf != nil {
+				mt = mf.MediaType
+			}
+			res := audit.ClosureEx(preR.view(), P, mt, audit.Opts{})
+			if len(res.Problems) > 0 {
+				x.Labels["backup:previous-image-incomplete(not judged)"]++
+				continue
+			}
+			for _, d := range c18SortedKeys(res.Content) {
+				if x.ArtChild[d] && d != P {
+					continue
+				}
+				if !posB.has(d) {
+					vs = append(vs, x.v(e.Divergent, "backup-incomplete", "backup %s held the previous image %s of %s but %s of its closure is absent in the backup repository", bk, P, e.K, d))
+					break
+				}
 			}
 		}
 	}
